@@ -18,6 +18,7 @@ C03 geometry on the footnote grammar (PM stage 2b).
 -/
 import WpModel.Lemmas.FootGeoBox
 import WpModel.Lemmas.FootOverlap
+import WpModel.Lemmas.FootOps
 import WpModel.Props.C01Foot
 
 namespace Wp.C03FootGeo
@@ -231,6 +232,29 @@ theorem pbOf_is_area_top (c : FCtx) (cur : List Fn) (o : AreaOut) (h : areaOut c
     rw [if_neg hne]
     unfold max0
     split <;> split <;> grind
+
+/-! ### the footnote methods of `LayoutContext`, called in any order -/
+
+/-- **`context.page_bottom` stays exact under any sequence of `layout_footnote` / `report_footnote` /
+`unlayout_footnote` calls** (function level: the calls are compared one by one with the real `LayoutContext` by
+`py/harness/pm_foot_ops.py`, in orders that no document produces): from the state in which a page starts, after
+every call `page_bottom` is the page box bottom minus what the area holding the current footnotes takes (`pbOf`),
+and never exceeds the page box bottom — for every `@footnote` style. -/
+theorem context_page_bottom_exact (c : FCtx) (fns : List Fn) (ops : List FOp)
+    (hh : ∀ op ∈ ops, 0 ≤ op.fn.height) :
+    ∀ r ∈ applyOps c (pageStartState c fns) ops, r.1.pageBottom = pbOf c r.1.cur ∧ r.1.pageBottom ≤ c.pageH :=
+  applyOps_exact c ops _ (pageStartState_pbx c fns) hh
+
+/-- **No sequence of calls loses or duplicates a footnote box** (C01 at the level of the context): calls on the
+footnotes the context knows leave every box exactly as often in `footnotes + current_page_footnotes +
+reported_footnotes` as at the start of the page. -/
+theorem context_conserves_footnotes (c : FCtx) (fns : List Fn) (ops : List FOp)
+    (hin : ∀ op ∈ ops, op.fn ∈ fns) :
+    ∀ r ∈ applyOps c (pageStartState c fns) ops, ∀ g, (allFns r.1).count g = fns.count g := by
+  intro r hr g
+  have := applyOps_conserve c ops (pageStartState c fns)
+    (by intro op ho; simp [allFns, pageStartState, hin op ho]) r hr g
+  simpa [allFns, pageStartState] using this
 
 /-! ### pages -/
 
@@ -569,5 +593,18 @@ example : Single C01Foot.exDoc.root ∧ LineHOk C01Foot.exDoc.root ∧
   refine ⟨by simp [C01Foot.exDoc, C01Foot.exDocOf, Single, SingleList], ?_, by decide +kernel⟩
   simp only [C01Foot.exDoc, C01Foot.exDocOf, LineHOk, LineHOkList, and_true]
   decide +kernel
+
+/-- The two theorems are not vacuous: a 60px page, `@footnote{margin-top:-14px}`, footnotes 1 (10px) and 2 (30px):
+lay 1, lay 2, report 2, unlay 1, report 1 (invalid: 1 is waiting again — the trace stops). Per call: `page_bottom`,
+area height, and the three lists. -/
+example :
+    let c : FCtx := { area := { C01Foot.exArea with mt := -14 }, pageH := 60, currentPage := 1, forcedBreak := false,
+                      tbl := [] }
+    let f1 : Fn := ⟨1, 1, 10, .auto, ""⟩
+    let f2 : Fn := ⟨2, 3, 10, .auto, ""⟩
+    (applyOps c (pageStartState c [f1, f2]) [.lay f1, .lay f2, .report f2, .unlay f1, .report f1]).map
+      (fun r => (r.1.pageBottom, r.1.areaH, r.1.cur.map (·.fid), r.1.reported.map (·.fid), r.1.pending.map (·.fid))) =
+    [(60, some 10, [1], [], [2]), (34, some 40, [1, 2], [], []), (60, some 10, [1], [2], []),
+     (60, none, [], [2], [1])] := by decide +kernel
 
 end Wp.C03FootGeo
